@@ -679,6 +679,12 @@ func (l *lexer) scanOperator(ch rune) (rune, rune) {
 			return ANY_P, l.next()
 		}
 	default:
+		if ch >= pathPrivate {
+			// The numbers goyacc gives the named tokens start at pathPrivate,
+			// in the Private Use Area. Never hand such a character to the
+			// parser as itself: U+E002 would be taken for the keyword "to".
+			return unicode.ReplacementChar, next
+		}
 		return ch, next
 	}
 
